@@ -460,7 +460,7 @@ def run(ctx):
     # operation histories on one live Transaction object (state surviving between calls): BFS, every history
     # replayed on a fresh object; the digest must match the CURRENT fields and a freshly re-signed transaction
     # must pass the reference interpreter
-    hcfgs = [({'kinds': k, 'seed': seed % 1000, 'events': txhist.EVENTS}, 3 if q else 4) for k in txhist.CONFIGS]
+    hcfgs = [({'kinds': k, 'seed': seed % 1000, 'events': txhist.EVENTS + [['edit_version']]}, 3 if q else 4) for k in txhist.CONFIGS]
     nstates = ctx.bfs_multi('hist', hcfgs, max_states=4000 if q else 60000)
     ctx.note('history_states', nstates)
     ctx.note('bounds', {'max_inputs': kmax, 'field_vectors': len(FIELDS), 'output_shapes': len(shapes),
